@@ -1,12 +1,47 @@
 """C07 Imported blocks extend their parent with consistent height, link and time (spec/chain/ChainImport.tla)."""
 import json
+import os
 
 
 def times(t):
     return "{" + ", ".join(str(i) for i in range(0, t + 1)) + "}"
 
 
+def tree_stage(ctx):
+    """Candidate tree of the block manager (spec/chain/BlockTree.tla): Propose/Import/Finalize/Dispose/Dup/readers/waiters."""
+    misuse = "TRUE" if os.environ.get("VERIF_C07_MISUSE") else "FALSE"
+    if ctx.replay:
+        bs = [json.load(open(ctx.replay))["detail"]["behaviour"]]
+    else:
+        r = ctx.model_check("chain", "MC_BlockTree", "MC_BlockTree.cfg",
+                            constants=dict(MaxHandles=ctx.pick(3, 4), MaxOps=ctx.pick(6, 7), Misuse=misuse),
+                            coverage=True, timeout=ctx.pick(600, 1800))
+        ctx.check_coverage(r, ["Extend", "ExtendCancelled", "Finalize", "Dispose", "Dup", "CancelLate", "GetLast", "GetByHeight",
+                               "GetBlock", "WaitFor"], allow_zero=() if misuse == "TRUE" else ("DisposeAgain",))
+        d = 3
+        bs = ctx.behaviours("chain", "Gen_BlockTree", "Gen_BlockTree.cfg",
+                            constants=dict(MaxHandles=4, MaxOps=d, Depth=d, Misuse=misuse), timeout=900)
+        wl = ctx.pick(12, 16)
+        walks = ctx.behaviours("chain", "Gen_BlockTree", "Gen_BlockTree.cfg",
+                               constants=dict(MaxHandles=ctx.pick(5, 6), MaxOps=wl, Depth=wl, Misuse=misuse),
+                               simulate="num=%d" % ctx.pick(400, 4000), depth=wl + 2, seed=ctx.seed, timeout=900)
+        ctx.sample([dict(op=s["op"], res=s.get("res"), p=s.get("p"), v=s.get("v"), h=s.get("h")) for s in walks[0]][:8])
+        bs = bs + walks
+    inp = ctx.path("in", "tree.ndjson")
+    with open(inp, "w") as fh:
+        for b in bs:
+            fh.write(json.dumps(b) + "\n")
+    recs = ctx.go_replay("chainimport", "TestTree", inp, shards=1 if ctx.replay else 4, timeout=1500)
+    ctx.absorb(recs)
+    return len(bs)
+
+
 def run(ctx):
+    tree = os.environ.get("VERIF_C07_TREE", "")
+    if tree == "only" or (ctx.replay and json.load(open(ctx.replay)).get("key", "").startswith("tree:")):
+        n = tree_stage(ctx)
+        return ctx.finish(rule="%d behaviours of the block manager's candidate tree (BlockTree.tla)" % n,
+                          assumptions=["standalone run of the candidate-tree stage"])
     T = 4
     if ctx.replay:
         items = [json.load(open(ctx.replay))["detail"]["behaviour"]]
